@@ -105,7 +105,7 @@ def real_banks(run, tier, nprng):
         comp = compute.SIFrameComputer(bank, frame_shift_ms=shift_ms, frame_style=style, pad_to_nearest_power_of_two=pad,
                                        use_log=log, use_power=power, include_energy=energy)
         geo = (comp._frame_shift, comp._max_support, comp._translation, comp._dft_size)
-        x = nprng.randn(N)
+        x = nprng.randn(N) * (1.0, 1.0, 1e-3, 0.0)[(k + N) % 4]
         w2 = comp._window.reshape(-1)  # the window as the library built it (C20's business): 2S taps
         filt = list(gs)
         if energy:
@@ -123,7 +123,9 @@ def real_banks(run, tier, nprng):
                     col = np.array([p[1] for p in fr])
                     ok = idx < len(a)
                     exp[kf, i] = np.sum(a[idx[ok]] * w2[col[ok]])
+        borderline = np.zeros(exp.shape, dtype=bool)
         if log:
+            borderline = np.abs(exp - pconfig.LOG_FLOOR_VALUE) <= 1e-6 * pconfig.LOG_FLOOR_VALUE
             exp = np.log(np.maximum(exp, pconfig.LOG_FLOOR_VALUE))
         for dt, tol in ((np.float64, 1e-7), (np.float32, 2e-3), (np.float16, 5e-2)):
             got = comp.compute_full(x.astype(dt))
@@ -138,7 +140,7 @@ def real_banks(run, tier, nprng):
                 if dt == np.float32:
                     # the input itself was rounded: re-evaluate the definition on the rounded input? no - tolerance covers it
                     pass
-                okm = np.isclose(got.astype(np.float64), ref, rtol=tol, atol=tol) | si_model.near_floor(ref)
+                okm = np.isclose(got.astype(np.float64), ref, rtol=tol, atol=tol) | borderline | (si_model.near_floor(ref) if dt != np.float64 else False)
                 if not okm.all():
                     kk, ii = np.argwhere(~okm)[0]
                     what = "frame %d coeff %d: got %r, definition %r" % (kk, ii, float(got[kk, ii]), float(ref[kk, ii]))
